@@ -159,6 +159,9 @@ impl ExprStream {
         i -= self.mutated;
         if i >= self.shapes {
             let mut rng = Rng::derive(self.seed, "expr-comp-rep", (i - self.shapes) as u64);
+            if (i - self.shapes) % 4 == 3 {
+                return gexpr::invariant_variants(&mut rng);
+            }
             return gexpr::component_repetition(&mut rng);
         }
         let mut rng = Rng::derive(self.seed, "expr-shape", i as u64);
